@@ -60,8 +60,13 @@ TStream ==
   /\ StreamOk(R.res, R.expect_err, R.items, R.expected_items, R.chunk, R.max_item, R.peak, R.max_buf_len, R.max_buf_cap, R.max_reads_per_refill)
   /\ UNCHANGED <<cvars, corr, expect>>
 
+TBigReq ==
+  /\ IsEv("bigreq")
+  /\ BigRequestOk(R.total, R.want, R.got, R.err, R.complete, R.panic)
+  /\ UNCHANGED <<cvars, corr, expect>>
+
 TInit == l = 1 /\ CInit /\ corr = <<FALSE, 0, 0, 0>> /\ expect = <<FALSE, <<>>>>
-TNext == TBegin \/ Skipping \/ TStep \/ TStream
+TNext == TBegin \/ Skipping \/ TStep \/ TStream \/ TBigReq
 TSpec == TInit /\ [][TNext]_tvars
 
 Accepted ==
